@@ -1171,7 +1171,8 @@ class Engine(ExprEval, NumpyModel, NumpyFuncs):
         if getattr(stmt, "_ghost", False):
             for h, g in self.sequents(st, stmt.test):
                 self.oblige(st, g, "ghost-assert", self.stmt_key(stmt)[:60], stmt, extra_hyps=h)
-            st.assume(self.truth(st, self.eval(st, stmt.test)))
+            if not getattr(self, "ghost_asserts_unused", False):       # second pass after a failed ghost assertion: hints are not used as facts
+                st.assume(self.truth(st, self.eval(st, stmt.test)))
             return [(st, None)]
         c = self.truth(st, self.eval(st, stmt.test))
         self.oblige(st, c, "assert", "assert statement holds", stmt)
